@@ -11,7 +11,7 @@ UNIT = dict(
     deps='vstd = { path = "/verif/models/vstd" }',
     encoded={F: ["struct RowDatasetVersionRun + impl", "struct RowDatasetVersionSequence", "RowDatasetVersionSequence::{new, from_uniform_row_count, len, is_empty, versions, version_at, mask}",
                  "struct VersionsIter + impl (new, advance_run) + Iterator::next"]},
-    models=["U64Segment (the span of a run) -> SpanLite: only its length (len, is_empty, Range(0..n) constructor, mask(positions) shortens by the number of positions); what U64Segment itself does is decided under C34",
+    models=["U64Segment (the span of a run) -> SpanLite: its length and the interval its ids lie in (len, is_empty, range, Range(a..b) constructor, mask(positions) shortens by the number of positions); spans with holes (extent > len) included; what U64Segment itself does is decided under C34",
             "Vec -> vstd::cvec fixed-capacity contiguous vector (4 runs)", "lance_core::Result -> unit-like"],
     bounds={"runs": "<=3 runs with arbitrary u64 versions and lengths 1..=3 (0..=3 for len/version_at/is_empty); zero-length runs in the middle make versions() yield one spurious item, but no writer produces them and mask() removes them, so non-emptiness is taken as the representation invariant", "mask": "<=2 ascending distinct positions", "unwind": 12},
     outside=["get_version_for_row_id / rows_with_version_greater_than (walk a RowIdSequence)", "protobuf framing (write/read_dataset_versions)", "which version build_manifest assigns at append/update; delta queries (DataFusion filters)"],
@@ -24,10 +24,20 @@ pub type Result<T> = std::result::Result<T, Error>;
 
 /// length-only stand-in for `U64Segment`
 #[derive(Debug, Clone, PartialEq, Eq, Default)]
-pub struct SpanLite { pub n: usize }
+pub struct SpanLite {
+    /// number of ids in the span
+    pub n: usize,
+    /// the ids lie in start..=start+extent-1; extent > n when the span has holes
+    pub start: u64,
+    pub extent: u64,
+}
 #[allow(non_snake_case)]
 impl SpanLite {
-    pub fn Range(r: core::ops::Range<u64>) -> Self { Self { n: (r.end - r.start) as usize } }
+    pub fn Range(r: core::ops::Range<u64>) -> Self { Self { n: (r.end - r.start) as usize, start: r.start, extent: r.end - r.start } }
+    /// like U64Segment::range: min..=max of the ids, None when empty
+    pub fn range(&self) -> Option<core::ops::RangeInclusive<u64>> {
+        if self.n == 0 { None } else { Some(self.start..=(self.start + self.extent - 1)) }
+    }
     pub fn len(&self) -> usize { self.n }
     pub fn is_empty(&self) -> bool { self.n == 0 }
     pub fn mask(&mut self, positions: &[u32]) {
